@@ -11,7 +11,7 @@ from fractions import Fraction
 
 import z3
 
-from .nums import Sym, SymInt, SymComplex, SymBool, Unsupported, cur, RV, ExactInt, frac_of_float
+from .nums import Sym, SymInt, SymComplex, SymBool, Unsupported, cur, RV, ExactInt, frac_of_float, Or
 
 
 @contextlib.contextmanager
@@ -409,6 +409,23 @@ class TrigStub:
         ctx._add((s2s - (c * c * 2 - 1)).n == 0); ctx._add((c2s - s * c * 2).n == 0)
     self.rat[q] = (c, s)
     return c, s
+
+  def acos(self, x):
+    """math.acos: ValueError outside [-1, 1]; inside, a fresh registered angle theta in [0, pi] with cos(theta) = x and
+    sin(theta) = the non-negative root of 1 - x^2"""
+    if not isinstance(x, Sym) or x.c is not None:
+      return math.acos(float(x.c) if isinstance(x, Sym) else x)
+    ctx = cur()
+    if bool(Or(x > 1, x < -1)):
+      raise ValueError("math domain error")
+    th = ctx.fresh_real("acos"); s = ctx.fresh_real("acos_sin")
+    ctx._add(s.n >= 0)
+    e = (x * x + s * s - 1).eq0()
+    if not isinstance(e, bool): ctx._add(e)
+    PI = frac_of_float(math.pi)
+    ctx._add(z3.And(th.n >= 0, th.n <= RV(PI)))
+    self.base.append((th, x, s))
+    return th
 
   def cos(self, x):
     r = self.cs(x)
